@@ -59,6 +59,16 @@ add("c10__w__proc_cmd_unimpl_resolve", 70, "own", "proc::witness::<_, 3, 13>")
 add("c10__w__proc_cmd_unimpl_allocate", 70, "own", "proc::witness::<_, 3, 15>")
 add("c12__w__proc_instance_id", 70, "ign", "proc::witness_instance::<_, 12>")
 
+# ---------------------------------------------------------------- small steps and short histories
+add("c13__q__init", 40, "ign", "hist::init::<_, C13>")
+add("c13__q__accessor", 40, "ign", "hist::accessor::<_, C13>")
+add("c02__q__burst16", 20, "ign", "hist::burst::<_, C02, 16>")
+add("c02__t__burst24", 28, "ign", "hist::burst::<_, C02, 24>")
+add("c02__t__burst32", 36, "ign", "hist::burst::<_, C02, 32>")
+add("c13__t__set_then_get", 70, "ign", "hist::set_then_get::<_, C13>")
+add("c14__t__vendor_twice_nv4", 70, "ign", "hist::vendor_twice::<_, C14, 4>")
+add("c15__t__uuid_twice", 70, "ign", "hist::uuid_twice::<_, C15>")
+
 # ---------------------------------------------------------------- encoders
 # (short name, type, kind, tier, flags)  kind: req / resp / msg / raw ; flags: ok / refuse / oversize ; kfdec = round trip hits the decoder's unimplemented!() table
 ENC = []
@@ -170,7 +180,8 @@ for e in ENC:
             enc_harness("C01", e, mode=1, own="own")
             add("c01__w__resp_get_eid_success", e["buf"] + 4, "own", "enc::run_mode::<_, C01, %s, 2, %d>" % (e["ty"], e["buf"]))
         else:
-            enc_harness("C01", e, own="own")
+            # maximum-size round trips cost ~8 min each: thorough only
+            enc_harness("C01", e, own="own", tier="t" if e["big"] else None)
 # C06 finding: Query Hop command code — the C06 harness for it is the witness
 L[:] = [x for x in L if x[0] != "c06__q__req_query_hop"]
 add("c06__w__req_query_hop", 92, "ign", "enc::run::<_, C06, enc::ReqQueryHop, 88>")
